@@ -690,6 +690,11 @@ class HttpRequestParser(HttpParser[RawRequestMessage]):
             # https://datatracker.ietf.org/doc/html/rfc7230#section-5.3.3
             try:
                 url = URL.build(authority=path, encoded=True)
+                # yarl validates host and port lazily: 'CONNECT a:b' would only
+                # fail in BaseRequest(), killing the handler task (no response,
+                # connection left open).
+                url.host
+                url.port
             except ValueError:
                 raise InvalidURLError(
                     path.encode(errors="surrogateescape").decode("latin1")
